@@ -123,7 +123,7 @@ Record state := mkState {
   s_clock : time;
   s_next : id;                         (* next fresh id handed out by store.write *)
   (* ghost *)
-  g_acc : list (id * rcpt);            (* accepted: enqueue returned an id *)
+  g_acc : list (id * rcpt * bool);     (* accepted: the storage write returned an id; bool = non-empty sender *)
   g_deliv : list (id * rcpt);          (* relay reported delivered *)
   g_fail : list (id * rcpt * bool);    (* failed for good; bool = a bounce naming it was created *)
   g_atts : list att;                   (* every attempt started *)
@@ -255,7 +255,7 @@ Definition step (s : state) (e : event) : state :=
       let i := s_next s in
       let s1 := mkState ((i, mkMsg sender rcpts 0 ts) :: s_store s) (s_queued s) (s_qids s) (s_active s)
                         (s_tasks s ++ [TEnq i sender rcpts]) (s_sched s) (s_wake s) (s_clock s) (i + 1)
-                        (map (fun r => (i, r)) rcpts ++ g_acc s) (g_deliv s) (g_fail s) (g_atts s) (g_removed s) in
+                        (map (fun r => (i, r, sender)) rcpts ++ g_acc s) (g_deliv s) (g_fail s) (g_atts s) (g_removed s) in
       s1
   | EEnqDone i =>
       match take_task (is_enq i) (s_tasks s) with
